@@ -18,6 +18,13 @@ Definition cvec (ro : role) (net : list rxn) (iso : list str) (e : rxn) : list Z
 Definition cvec_outarcs_only (ro : role) (net : list rxn) (iso : list str) (e : rxn) : list Z :=
   map (fun s => entry ro (filter (fun a => role_eqb (a_role a) Product) (bip_arcs net)) s (rid e)) (species_order net iso).
 
+(** undirected bipartite input (nx.Graph / nx.MultiGraph): the incidences carry role and stoich but no direction.  Since /repo
+    a58b70a _as_bipartite orients each incidence by its role, which gives exactly [bip_arcs] (so [cvec] applies).  BEFORE that
+    repair it built nx.DiGraph(U) — both directions for every incidence — and the walk over the in- and out-arcs of a reaction
+    node met every incidence twice (kept for the documentation theorem C19_undirected_input_refuted) *)
+Definition cvec_undirected_doubled (ro : role) (net : list rxn) (iso : list str) (e : rxn) : list Z :=
+  map (fun s => entry ro (bip_arcs net ++ bip_arcs net) s (rid e)) (species_order net iso).
+
 Fixpoint veqb (u v : list Z) : bool :=
   match u, v with
   | [], [] => true
@@ -52,6 +59,9 @@ Definition complex_graph (net : list rxn) (iso : list str) : list (list Z) * lis
   fold_left (cstep (fun ro e => cvec ro net iso e)) (edges_sorted net) ([], []).
 Definition complex_graph_outarcs_only (net : list rxn) (iso : list str) : list (list Z) * list (nat * nat) :=
   fold_left (cstep (fun ro e => cvec_outarcs_only ro net iso e)) (edges_sorted net) ([], []).
+
+Definition complex_graph_undirected_doubled (net : list rxn) (iso : list str) : list (list Z) * list (nat * nat) :=
+  fold_left (cstep (fun ro e => cvec_undirected_doubled ro net iso e)) (edges_sorted net) ([], []).
 
 (** adjacency of the complex graph (nodes = complex indices as N) *)
 Definition nn (k : nat) : N := N.of_nat k.
@@ -171,3 +181,70 @@ Definition step19 (st : tok) (x : hist_step) : tok :=
   run19 (fst (fst (fst x))) (snd (fst (fst x))) (snd (fst x)) (snd x).
 Definition run19_hist (steps : list hist_step) : tok :=
   L (snd (fold_left (fun acc x => let st' := step19 (fst acc) x in (st', snd acc ++ [st'])) steps (L [], []))).
+
+(** The analyzer as a STAGED state machine (round 3).  Stored fields: the summary with its complex list / complex graph,
+    the linkage deficiencies, the deficiency-one result.  Stages:
+      compute_summary                 recomputes the first group from the CURRENT network and (since /repo 7d0fc98) DROPS the two
+                                      derived groups; [do_summary_old] is the stage before that repair (derived groups kept)
+      compute_linkage_deficiencies    needs a summary (RuntimeError otherwise: state unchanged); works on the STORED complex graph
+      run_deficiency_one_algorithm    computes the missing stages first, then stores (hypotheses_satisfied, regular)
+    Routes used by callers: 0 = compute_crn_deficiency = summary; linkage; one,  1 = the same three calls by hand,
+    2 = summary; one.  ValueError (no reaction) leaves the state untouched. *)
+Record astate := AState { a_sum : option (list (list Z) * list (nat * nat) * summary);
+                          a_ld : option (list Z); a_one : option (bool * bool) }.
+Definition a_init : astate := AState None None None.
+Definition hs_net (x : hist_step) : list rxn := fst (fst (fst x)).
+Definition hs_iso (x : hist_step) : list str := snd (fst (fst x)).
+Definition hs_rc (x : hist_step) : rcert := snd (fst x).
+Definition hs_ccs (x : hist_step) : list rcert := snd x.
+
+Definition fresh_sum (x : hist_step) : list (list Z) * list (nat * nat) * summary :=
+  (fst (complex_graph (hs_net x) (hs_iso x)), snd (complex_graph (hs_net x) (hs_iso x)),
+   compute_summary (hs_net x) (hs_iso x) (rc_r (hs_rc x))).
+Definition do_summary (x : hist_step) (st : astate) : astate := AState (Some (fresh_sum x)) None None.
+Definition do_summary_old (x : hist_step) (st : astate) : astate := AState (Some (fresh_sum x)) (a_ld st) (a_one st).
+Definition do_linkage (x : hist_step) (st : astate) : astate :=
+  match a_sum st with
+  | None => st
+  | Some (cs, arcs, s) =>
+      AState (a_sum st) (Some (linkage_deficiencies (linkage_classes arcs (length cs)) (map rc_r (hs_ccs x)))) (a_one st)
+  end.
+Definition do_one_with (summ : hist_step -> astate -> astate) (x : hist_step) (st : astate) : astate :=
+  let st1 := match a_sum st with None => summ x st | Some _ => st end in
+  let st2 := match a_ld st1 with None => do_linkage x st1 | Some _ => st1 end in
+  match a_sum st2, a_ld st2 with
+  | Some (cs, arcs, s), Some ld =>
+      let reg := regular arcs (length cs) in
+      AState (a_sum st2) (a_ld st2) (Some (deficiency_one_hypotheses s ld reg, reg))
+  | _, _ => st2
+  end.
+Definition route_with (summ : hist_step -> astate -> astate) (style : nat) (x : hist_step) (st : astate) : astate :=
+  match style with
+  | 2%nat => do_one_with summ x (summ x st)
+  | _ => do_one_with summ x (do_linkage x (summ x st))
+  end.
+Definition route := route_with do_summary.
+Definition route_old := route_with do_summary_old.
+
+(** what the adapter reads from the object (same layout as run19) *)
+Definition obs_of_state (x : hist_step) (st : astate) : tok :=
+  match a_sum st, a_ld st, a_one st with
+  | Some (cs, arcs, s), Some ld, Some (hyp, reg) =>
+    L [ I 0%Z; tmat cs; tset tarc arcs; tlist (tset tN) (linkage_classes arcs (length cs));
+        L [tnat (n_species s); tnat (n_reactions s); tnat (n_complexes s); tnat (n_linkage s); tnat (stoich_rank s);
+           I (deficiency s); tbool (weakly_rev s)];
+        tlist I ld;
+        tbool (certs_ok (hs_net x) (hs_iso x) (hs_rc x) (hs_ccs x));
+        tbool reg; tbool (check_deficiency_zero s); tbool (check_deficiency_one s ld); tbool hyp ]
+  | _, _, _ => L [I 3%Z]
+  end.
+
+(** a history: per step the route taken by the RE-USED analyzer, then a brand-new analyzer (route 0 from the initial state);
+    both answers are recorded *)
+Definition sm_step (acc : astate * list tok) (sx : nat * hist_step) : astate * list tok :=
+  match hs_net (snd sx) with
+  | [] => (fst acc, snd acc ++ [L [I 2%Z]; L [I 2%Z]])
+  | _ => let st' := route (fst sx) (snd sx) (fst acc) in
+         (st', snd acc ++ [obs_of_state (snd sx) st'; obs_of_state (snd sx) (route 0 (snd sx) a_init)])
+  end.
+Definition run19_sm (steps : list (nat * hist_step)) : tok := L (snd (fold_left sm_step steps (a_init, []))).
